@@ -133,8 +133,8 @@ def run(ctx):
     for r in rs:
         ctx.need(r, "trace validation")
         st = r.printed("STATS")
-        if not st:
-            raise vlib.Inconclusive("trace validation did not reach the end of a shard")
+        if len(st) != 1 or len(r.printed("VIOL")) != 1:
+            raise vlib.Inconclusive("trace validation did not reach the end of a shard (no STATS/VIOL line)")
         for k, v in st[0].items():
             stats[k] = stats.get(k, 0) + v
         allv += vlib.trace_viols(r)
